@@ -26,7 +26,13 @@ func c07Property(t *rapid.T) {
 	g := newHistGen(t, x)
 	g.plainAmountsForAdmins = true
 	// victims of every failure cause, some of which fail after the contract already wrote state or posted events
-	g.weights = append(g.weights, "malformed", "poor", "poor", "badsig", "ibtp-badproof", "xvm", "late-failure", "late-failure", "late-failure", "late-failure")
+	g.weights = append(g.weights, "malformed", "poor", "poor", "badsig", "ibtp-badproof", "xvm", "late-failure", "late-failure", "late-failure", "late-failure", "script", "script", "script", "script", "script")
+	scriptHeavy := rapid.IntRange(0, 2).Draw(t, "scriptHeavy") == 0
+	if scriptHeavy {
+		// blocks of mostly scripted transactions over four keys: writes, deletes and re-writes of one key by
+		// succeeding and failing transactions of the same block
+		g.weights = []string{"script", "script", "script", "script", "script", "script", "script", "script", "transfer", "store", "late-failure", "poor"}
+	}
 	var ops []string
 	f := &failer{t: t, prop: "C07", ops: &ops}
 	ops = append(ops, fmt.Sprintf("world std audit=%v", audit))
@@ -132,7 +138,7 @@ func c07Property(t *rapid.T) {
 			if i < len(b.txs)-1 {
 				midBlockFailures++
 			}
-			if s.kind == "late-failure" || s.kind == "poor" {
+			if s.kind == "late-failure" || s.kind == "poor" || s.kind == "script" {
 				lateFailures++
 			}
 			k := sim.KeyByAddr(s.tx.GetFrom().String())
@@ -165,6 +171,10 @@ func c07Property(t *rapid.T) {
 			}
 			if !rsY[j].IsSuccess() {
 				f.fail("transaction %q succeeded in the block with the failed transactions and fails without them: %s", s.desc, rsY[j].Ret)
+			}
+			// what a successful transaction returns (script reads, queries) must not depend on the failed ones before it
+			if string(rsY[j].Ret) != string(rs[j].Ret) {
+				f.fail("transaction %q returns %q in the block with the failed transactions and %q without them", s.desc, rs[j].Ret, rsY[j].Ret)
 			}
 		}
 		dx, dy := sim.DumpState(x.N.StateDB), sim.DumpState(y.N.StateDB)
@@ -206,6 +216,9 @@ func c07Property(t *rapid.T) {
 	}
 	if midBlockFailures > 0 {
 		classes = append(classes, "failure-at-non-final-position")
+	}
+	if scriptHeavy {
+		classes = append(classes, "script-heavy-blocks")
 	}
 	nt := ""
 	if lateFailures > 0 && midBlockFailures > 0 {
